@@ -511,6 +511,13 @@ static inline void L0_fresh_local(const void *p, uint64_t bytes) {
   if (g_tok_on) __CPROVER_assume(g_tok_obj != OBJ(p));
   g_tmp_obj = OBJ(p); g_tmp_has = 0;
 }
+/* a local object of class type: the cell may only lie on one of the element slots of that type (predicate generated per struct) */
+static inline void L0_fresh_local_struct(const void *p, uint64_t bytes, _Bool cell_on_slot) {
+  if (g_cell_obj == OBJ(p)) __CPROVER_assume((CAT_TC || g_cell_st == ST_RAW) && cell_on_slot && g_cell_off + ESZ <= bytes);
+  if (g_tok_on) __CPROVER_assume(g_tok_obj != OBJ(p));
+  g_tmp_obj = OBJ(p); g_tmp_has = 0;
+}
+#define L0_FRESH_LOCAL_S(tag, p) L0_fresh_local_struct(p, sizeof(*(p)), L0_SLOT_OK_##tag(g_cell_off))
 /* the 'basic allocator' concept (void *allocate(size_t), void *reallocate(void *, size_t old, size_t new), void deallocate(void *, size_t)):
  * exact-size semantics -- a block is handed back / reallocated with the byte size it was obtained with */
 static inline void *L0_SimpleAllocator__allocate__u64(void *a, uint64_t bytes) {
